@@ -33,6 +33,19 @@ TagOps == UNION {UNION {{[ns |-> "tagops", family |-> f, names |-> q, tags |-> S
                             : q \in InjSeqs(Families[f], k), tg \in TagAssign(k)} : k \in 2..TagLen}
                    : f \in TagFamilies}
 
+\* the {a, a', s} triple (two names deriving one identifier + the name that derives the suffixed identifier) reaches one
+\* client through different tag positions at EVERY tier (the other tagops triples only when TagLen >= 3)
+SuffixCore == {"v", "V", "v_2"}
+TagOpsCore == {[ns |-> "tagops", family |-> "suffix", names |-> q, tags |-> SubSeq(tg, 1, 3)]
+                 : q \in InjSeqs(SuffixCore, 3), tg \in TagAssign(3)}
+
+\* "tags": the names are TAGS (one operation each); the namespace is the set of client classes / endpoint modules /
+\* APIClient attributes.  Tags that differ only in case / separators share one client BY DESIGN (normalize_tag_key), so
+\* only totality is judged: the operation of every tag must end up in some client class.
+TagNames == UNION {{[ns |-> "tags", family |-> f, names |-> q, tags |-> <<>>]
+                      : q \in UNION {InjSeqs(Families[f], k) : k \in 1..2}} : f \in DOMAIN Families}
+            \cup {[ns |-> "tags", family |-> "suffix", names |-> q, tags |-> <<>>] : q \in InjSeqs(SuffixCore, 3)}
+
 \* "enumvals": the members of one enum are fed by JSON VALUES, not only by strings.  A value is written "<type>:<text>"
 \* (b bool, i integer, n number, s string, z null; the harness decodes it).  The lists mix JSON types whose host-language
 \* values compare equal or hash alike (true / 1 / 1.0 / "1" / "true" / "True", false / 0 / 0.0 / -0.0 / "0" / "" / null,
@@ -44,7 +57,7 @@ Lists(S, m) == UNION {[1..k -> S] : k \in 1..m}
 EnumVals == {[ns |-> "enumvals", family |-> "string", names |-> q, tags |-> <<>>] : q \in Lists(EnumStrVals, EnumLen)}
             \cup {[ns |-> "enumvals", family |-> "integer", names |-> q, tags |-> <<>>] : q \in Lists(EnumIntVals, EnumLen)}
 
-Init == /\ sc \in Plain \cup TagOps \cup EnumVals
+Init == /\ sc \in Plain \cup TagOps \cup TagOpsCore \cup TagNames \cup EnumVals
         /\ done = FALSE
 Emit == /\ ~done
         /\ done' = TRUE
